@@ -8,7 +8,10 @@ S (spec on the implementation): every returned triple has non-negative component
   shared extra arguments, compared exactly with the serial evaluation.
 K (model vs implementation): sampling points against the model's exact rationals; chunk boundaries of the model
   (fed with the ceil sequence of the float carry) against mpire's own chunking of the same array; the model's
-  parallel map run on the completion order that was observed."""
+  parallel map run on the completion order that was observed; the END-TO-END model of compute_phase_diagram
+  (Model/PhaseDiagram.v) on index-coded values against the layout of the implementation's returned array (vector- and
+  matrix-valued functions); the point lists handed to Triangulation against the model's exact plot transforms.
+X (extraction cross-check): a sample of the answers of every driver command is re-derived inside Coq by vm_compute."""
 from lib import *  # noqa
 import argforms as AF
 import contextlib, io, math, signal, tempfile, time
@@ -16,11 +19,12 @@ from koala import phase_diagrams as pd
 import mpire.utils as mpu
 
 DRIVERS = ("c20",)
-MODEL_TARGETS = ["Model/Sampling.vo", "Model/ParMap.vo"]
-TARGETS = ["Proofs/SamplingFacts.vo", "Proofs/ParMapFacts.vo"]
+MODEL_TARGETS = ["Model/Sampling.vo", "Model/ParMap.vo", "Model/PhaseDiagram.vo"]
+TARGETS = ["Proofs/SamplingFacts.vo", "Proofs/ParMapFacts.vo", "Proofs/SamplingCount.vo", "Proofs/PhaseDiagramFacts.vo"]
 LEVEL = "proof"
 TRUST = [
-    "hand-written Gallina models coq/Model/Sampling.v (linspace, product grid, the two filters, centre point, z = 1 - x - y over Q) and coq/Model/ParMap.v (mpire 2.10.2 map on a numpy array: chunking, index tags, sort by index, concatenate; koala's computation wrapper; transpose): modelled, not verified; tied to the code by the correspondence run",
+    "hand-written Gallina models coq/Model/Sampling.v (linspace, product grid, the two filters, centre point, z = 1 - x - y over Q) and coq/Model/ParMap.v (mpire 2.10.2 map on a numpy array: chunking, index tags, sort by index, concatenate; koala's computation wrapper; transpose) and coq/Model/PhaseDiagram.v (compute_phase_diagram end to end for scalar/vector/matrix-valued functions: chunk size as coded, pool.map, concatenate, .T reversing all axes; skew, reflection and the three rotations of the plot transforms over Q with the second coordinate in units of sin(pi/3)): modelled, not verified; tied to the code by the correspondence run",
+    "extraction + ocaml/c20_driver.ml: a sample of the answers of every driver command (sp, nd, chq, ch, pm, kp, kv, km) is re-derived inside Coq by vm_compute on every run (harness/xcheck.py)",
     "mpire.WorkerPool (processes, queues, scheduling): Section variable with the contract 'the result of every task is delivered exactly once, in any order'; exercised for the listed n_jobs, not proved",
     "mpire's float carry arithmetic for chunk sizes is outside the model (arbitrary ceil sequence in the theorems); the harness recomputes the sequence with the same float expressions and compares the chunks with mpire's",
     "matplotlib.tri.Triangulation / Qhull (node arrays), numpy linspace and float rounding: outside the model; sums are 1 only up to rounding (S tolerance 4 ulp, K tolerance 2 ulp of 1 on each coordinate)",
@@ -85,6 +89,15 @@ def arg_forms(res, arg, value, *key):
     if arg == "samples":
         return AF.choose_scalar(res, "get_*_sampling_points.samples", value, AF_SAMPLES, *key)
     return AF.choose(res, "compute_phase_diagram.sampling_points", value, AF_POINTS, *key, base=np.float64)
+
+
+def drv(ctx, lines):
+    """run the c20 driver; every (line, answer) is remembered for the in-Coq re-evaluation (coq_crosscheck)"""
+    outs = run_driver_parallel(ctx.exe["c20"], lines)
+    if not hasattr(ctx, "xsent"):
+        ctx.xsent = []
+    ctx.xsent += list(zip(lines, outs))
+    return outs
 
 
 # ------------------------------------------------------------------ sampling points
@@ -163,14 +176,54 @@ def match_points(tp, model):
     return None, identical, maxerr
 
 
+SIN60 = float(np.sin(np.pi / 3))
+
+
+def parse_nodes(o):
+    """answer of 'nd s' -> {"plain": [nodes], "sym": [six node lists]}, nodes as (Fraction X, Fraction Y) with Y in units of sin(pi/3)"""
+    pair = lambda cur: (Fraction(cur.z(), cur.z()), Fraction(cur.z(), cur.z()))
+    c1, c2 = Cursor(o["plain_nodes"]), Cursor(o["sym_nodes"])
+    return {"plain": [c1.list(lambda: pair(c1))], "sym": c2.list(lambda: c2.list(lambda: pair(c2)))}
+
+
+def compare_nodes(ctx, scheme, s, tp, tris, mlists, identical, case):
+    """K for the plot transforms, modulo what the property constrains: image 0 (the skew of the returned points) node by
+    node; the other five images up to congruence (same distance matrix).  Only when the returned point list is the
+    model's (otherwise there is no node-to-node correspondence) and the node counts agree (S reports those)."""
+    ex = ctx.res.extra
+    tl = [tris] if scheme == "plain" else list(tris)
+    if not identical or len(tl) != len(mlists) or any(len(t.x) != len(m) for t, m in zip(tl, mlists)):
+        ex["node_lists_not_compared_with_model"] = ex.get("node_lists_not_compared_with_model", 0) + 1
+        return
+    D0 = None
+    for a, (t, m) in enumerate(zip(tl, mlists)):
+        M = np.array([[float(x), float(y) * SIN60] for x, y in m])
+        N = np.array([t.x, t.y]).T
+        same = bool(np.allclose(N, M, rtol=0, atol=1e-12))
+        ex["node_lists_identical_to_model"] = ex.get("node_lists_identical_to_model", 0) + int(same)
+        if same:
+            ctx.res.traces += 1
+            continue
+        if a == 0:
+            i = int(np.argmax(np.abs(N - M).max(axis=1)))
+            ctx.k_mismatch(f"{scheme} scheme, samples={s}: node {i} of triangulation 0 at {N[i].tolist()}, the model's skew gives {M[i].tolist()}", case)
+        elif not np.allclose(dist_matrix(N), dist_matrix(M), rtol=0, atol=1e-9):
+            ctx.k_mismatch(f"{scheme} scheme, samples={s}: triangulation {a} is not congruent to the model's transformed point list", case)
+        else:
+            ex["node_lists_congruent_but_not_identical"] = ex.get("node_lists_congruent_but_not_identical", 0) + 1
+            ctx.res.traces += 1
+
+
 def evaluate_sampling(ctx, sizes):
     res = ctx.res
-    outs = run_driver_parallel(ctx.exe["c20"], [f"sp {s}" for s in sizes])
+    outs = drv(ctx, [f"sp {s}" for s in sizes])
+    nouts = drv(ctx, [f"nd {s}" for s in sizes])
     ex = res.extra
     ident = ex.setdefault("sampling_lists_identical_to_model", 0)
-    for s, o in zip(sizes, outs):
-        if "error" in o:
-            raise RuntimeError(f"c20 driver error {o['error']} on sp {s}")
+    for s, o, no in zip(sizes, outs, nouts):
+        if "error" in o or "error" in no:
+            raise RuntimeError(f"c20 driver error {o.get('error')} {no.get('error')} on sp/nd {s}")
+        mnodes = parse_nodes(no)
         if o["simplex_ok"] != ["1"]:
             ctx.k_mismatch(f"model self-check: a model point for samples={s} is not on the simplex", {"kind": "sampling", "s": s})
         for scheme, fn, key in (("plain", pd.get_non_symmetric_triangular_sampling_points, "plain"),
@@ -198,6 +251,13 @@ def evaluate_sampling(ctx, sizes):
                     ex["sampling_lists_identical_to_model"] += 1
                 else:
                     ex.setdefault("sampling_lists_not_identical", []).append([scheme, s, len(tp), len(model)])
+            # closed forms proved for the model (C20_point_count_*): recorded, not required (the property does not fix the count)
+            closed = s * s if scheme == "plain" else (s * s + s + 1) // 3 + 1
+            if len(model) != closed:
+                ctx.k_mismatch(f"{scheme} scheme, samples={s}: the model has {len(model)} points, the proved closed form gives {closed}", case)
+            ex["sampling_counts_equal_to_closed_form"] = ex.get("sampling_counts_equal_to_closed_form", 0) + int(len(tp) == closed)
+            # the point lists handed to Triangulation against the model's exact plot transforms (Model/PhaseDiagram.v)
+            compare_nodes(ctx, scheme, s, tp, tris, mnodes[key], identical, case)
             pts = [tuple(p) for p in np.asarray(tp).tolist()]
             dup = len(pts) - len(set(pts))
             if dup:
@@ -257,7 +317,7 @@ def evaluate_chunking(ctx, pairs):
         lines.append("ch %d %d %s" % (n, len(ceils), " ".join(hx(c) for c in ceils)))
         lines.append("chq %d %s" % (n, hx(4 * j)))
         exp.append(sizes)
-    outs = run_driver_parallel(ctx.exe["c20"], lines)
+    outs = drv(ctx, lines)
     differ = 0
     for (n, j), sizes, of, oq in zip(pairs, exp, outs[0::2], outs[1::2]):
         mf = [int(x) for x in of["sizes"][1:]]
@@ -321,7 +381,13 @@ def f_mixed_vec(J):
     return (1, 0, 2) if J[0] <= 0.125 else (float(J[0]), float(J[1]) + 0.5, float(J[2]) * 0.25)
 
 
-FUNCS = {"mixed-int-float": (f_mixed, {}), "mixed-int-float-vector": (f_mixed_vec, {}),
+def f_matrix(J):
+    """a 2 x 3 matrix per point: the returned array is (n, 2, 3).T = (3, 2, n) — .T reverses ALL axes"""
+    _cost(J, 0.004)
+    return np.array([[J[0], J[1], J[2]], [J[0] * J[1], 2.0, J[2] - J[0]]])
+
+
+FUNCS = {"matrix": (f_matrix, {}), "mixed-int-float": (f_mixed, {}), "mixed-int-float-vector": (f_mixed_vec, {}),
          "scalar": (f_scalar, {}), "scalar+args": (f_scalar_x, {"a": 2.5, "table": np.array([0.5, -1.25, 3.0])}),
          "vector": (f_vector, {}), "vector+args": (f_vector_x, {"a": -0.75, "table": np.array([0.5, -1.25, 3.0])})}
 
@@ -339,6 +405,7 @@ def evaluate_compute(ctx, cases):
     ro = ex.setdefault("compute_runs_with_completion_order_different_from_submission_order", 0)
     by_jobs = ex.setdefault("out_of_order_runs_by_n_jobs", {})
     lines, pend = [], []
+    vlines, vpend = [], []
     for c in cases:
         fn, extra = FUNCS[c["func"]]
         pts = get_points(c["scheme"], c["s"])
@@ -415,6 +482,12 @@ def evaluate_compute(ctx, cases):
                     # the call as it is now: integer chunk size computed by koala; the model computes it itself
                     lines.append("kp %d %s %d %s" % (n, hx(c["n_jobs"]), len(order), " ".join(map(str, order))))
                     pend.append((c, sizes, order, int(cs), predicted))
+                    if data.shape == serial.shape and np.array_equal(data, serial) and data.ndim in (2, 3) and data.size <= 20000:
+                        # the END-TO-END model (Model/PhaseDiagram.v: chunking, pool in the observed order, concatenate, .T) on
+                        # index-coded values: its returned array must have the implementation's layout
+                        dims = [str(data.shape[0])] if data.ndim == 2 else [str(data.shape[1]), str(data.shape[0])]
+                        vlines.append("%s %d %s %s %d %s" % ("kv" if data.ndim == 2 else "km", n, hx(c["n_jobs"]), " ".join(dims), len(order), " ".join(map(str, order))))
+                        vpend.append((c, data, serial))
                 else:
                     ceils = float_ceils(n, ns or 4 * c["n_jobs"], cs)
                     lines.append("pm %d %d %d %s %d %s" % (n, predicted, len(ceils), " ".join(hx(x) for x in ceils), len(order), " ".join(map(str, order))))
@@ -424,7 +497,8 @@ def evaluate_compute(ctx, cases):
                 if len(log) != n:
                     ex["worker_log_lengths_unexpected"] = ex.get("worker_log_lengths_unexpected", 0) + 1
         res.sample({"compute": c, "points": n, "chunks": len(sizes), "result_shape": list(data.shape)}, cap=8)
-    outs = run_driver_parallel(ctx.exe["c20"], lines)
+    outs = drv(ctx, lines)
+    check_layout(ctx, vlines, vpend)
     for (c, sizes, order, cs, predicted), o in zip(pend, outs):
         if "error" in o:
             raise RuntimeError(f"c20 driver error {o['error']}")
@@ -441,6 +515,35 @@ def evaluate_compute(ctx, cases):
             ctx.k_mismatch(f"model parallel map on the observed completion order {order[:10]} does not return the serial order", c)
         else:
             res.traces += 1
+
+
+def nested(cur, depth):
+    return cur.list(lambda: nested(cur, depth - 1)) if depth > 1 else cur.list(cur.int)
+
+
+def check_layout(ctx, vlines, vpend):
+    """K for the returned array: entry [..., i] of the model's array is the code of (point i, component ...); the
+    implementation's array must hold, at the same place, that component of the serial value at point i"""
+    outs = drv(ctx, vlines)
+    for (c, data, serial), ln, o in zip(vpend, vlines, outs):
+        if "error" in o:
+            raise RuntimeError(f"c20 driver error {o['error']} on {ln[:60]}")
+        n = data.shape[-1]
+        if o["raises"] != ["0"]:
+            ctx.k_mismatch("end-to-end model raises but the implementation returned", c)
+            continue
+        codes = np.array(nested(Cursor(o["data"]), data.ndim), dtype=np.int64)
+        rows = serial.T.reshape(n, -1)              # value of point i, flattened in C order
+        D = rows.shape[1]
+        if codes.shape != data.shape:
+            ctx.k_mismatch(f"end-to-end model returns an array of shape {codes.shape}, the implementation {data.shape}", c)
+        elif not np.array_equal(rows[codes // D, codes % D], data):
+            ctx.k_mismatch(f"end-to-end model: the layout of the returned array (shape {data.shape}) differs from the implementation's", c)
+        elif "evaluated" in o and [int(x) for x in o["evaluated"][1:]] != list(range(n)):
+            ctx.k_mismatch("end-to-end model: evaluated points are not 0..n-1", c)
+        else:
+            ctx.res.traces += 1
+            ctx.res.extra["returned_array_layouts_compared_with_model"] = ctx.res.extra.get("returned_array_layouts_compared_with_model", 0) + 1
 
 
 def evaluate_chunk_count_scan(ctx, confirm):
@@ -460,7 +563,7 @@ def evaluate_chunk_count_scan(ctx, confirm):
     # the call as it is now (integer chunk size computed by the model itself): chunk sizes and announced number
     # of chunks against mpire's for that chunk size
     klines = ["kp %d %s 0" % (n, hx(j)) for (_, _, n, j, _, _) in combos]
-    kouts = run_driver_parallel(ctx.exe["c20"], klines)
+    kouts = drv(ctx, klines)
     for (scheme, s, n, j, _, _), o in zip(combos, kouts):
         cs = int(o["chunk_size"][0])
         chs, pred = mpire_chunks(np.zeros((n, 3)), j, with_predicted=True, chunk_size=cs)
@@ -468,7 +571,7 @@ def evaluate_chunk_count_scan(ctx, confirm):
             ctx.k_mismatch(f"{scheme} samples={s} n_jobs={j}, chunk_size={cs}: model sizes/announced {o['sizes'][:8]}/{o['predicted']} vs mpire {[len(ch) for ch in chs][:8]}/{pred}", {"kind": "compute", "scheme": scheme, "s": s, "func": "scalar", "n_jobs": j})
         else:
             res.traces += 1
-    outs = run_driver_parallel(ctx.exe["c20"], lines)
+    outs = drv(ctx, lines)
     badc = []
     for (scheme, s, n, j, predicted, actual), o in zip(combos, outs):
         res.count("chunk-count-scan", (scheme, s, j))
@@ -483,6 +586,102 @@ def evaluate_chunk_count_scan(ctx, confirm):
     res.extra["combinations_where_mpire_default_chunking_announces_a_wrong_chunk_count"] = [[c["scheme"], c["s"], c["n_jobs"]] for c in badc]
     if badc:
         evaluate_compute(ctx, badc[:confirm])
+
+
+# ------------------------------------------------------------------ extraction cross-check (DESIGN 1.3)
+def coq_crosscheck(ctx):
+    """A sample of the (line, answer) pairs of EVERY command of the c20 driver is re-derived INSIDE Coq: the line is read
+    back into Gallina literals (the driver's grammar) and each answer must be what vm_compute gives for the model function
+    the driver evaluates (cases.v, one Goal ... vm_compute. reflexivity. per answer line).  A wrong extraction, a
+    miscompiled model.ml or a driver / hexio bug makes coqc fail -> RuntimeError -> broken harness."""
+    import xcheck as X
+    sent = getattr(ctx, "xsent", [])
+    quick = ctx.tier == "quick"
+    rng = np.random.default_rng([ctx.seed, 20, 99])
+    small = {"sp": lambda t: int(t[1]) <= 9, "nd": lambda t: int(t[1]) <= 6, "chq": lambda t: 2 <= int(t[1]) <= 1500,
+             "ch": lambda t: 2 <= int(t[1]) <= 1500, "pm": lambda t: 2 <= int(t[1]) <= 400, "kp": lambda t: 2 <= int(t[1]) <= 400,
+             "kv": lambda t: int(t[1]) * int(t[3]) <= 1200, "km": lambda t: int(t[1]) * int(t[3]) * int(t[4]) <= 1200}
+    quota = {"sp": 3, "nd": 2, "chq": 4, "ch": 4, "pm": 5, "kp": 6, "kv": 3, "km": 2} if quick else \
+            {"sp": 8, "nd": 5, "chq": 30, "ch": 30, "pm": 30, "kp": 40, "kv": 12, "km": 8}
+    pools = {k: [] for k in small}
+    for line, o in sent:
+        t = line.split()
+        if t[0] in small and "error" not in o and small[t[0]](t):
+            pools[t[0]].append((t, o))
+    q = lambda n, d: f"(Qmake ({int(n)})%Z {int(d)}%positive)"
+    nl = X.natlist
+    ints = lambda toks: [int(x) for x in toks[1:]]
+    ident = "(fun x : nat => x)"
+    body, n_cases = [], {}
+    g = lambda lhs, rhs: body.append(X.goal(lhs, rhs))
+
+    def qlist(toks, width):
+        """'<count> { num den }*width ...' -> list of tuples of Q literals"""
+        cur = Cursor(toks)
+        return cur.list(lambda: tuple(q(cur.z(), cur.z()) for _ in range(width)))
+
+    tup = lambda xs: "(" + ", ".join(xs) + ")"
+    for kind in small:
+        pool = pools[kind]
+        idx = sorted(rng.choice(len(pool), size=min(len(pool), quota[kind]), replace=False).tolist()) if pool else []
+        n_cases[kind] = len(idx)
+        for k, i in enumerate(idx):
+            t, o = pool[i]
+            c = Cursor(t[1:])
+            if kind == "sp":
+                sn = X.nat(c.int())
+                g(f"nonsym_triples {sn}", X.lst(tup, qlist(o["plain"], 3)))
+                g(f"sym_triples {sn}", X.lst(tup, qlist(o["sym"], 3)))
+                g(f"forallb on_simplex (nonsym_triples {sn}) && forallb on_simplex (sym_triples {sn})", X.boolean(o["simplex_ok"] == ["1"]))
+                g(f"centre_in_grid {sn}", X.boolean(o["centre_in_grid"] == ["1"]))
+            elif kind == "nd":
+                sn = X.nat(c.int())
+                g(f"nonsym_nodes {sn}", X.lst(tup, qlist(o["plain_nodes"], 2)))
+                cur = Cursor(o["sym_nodes"])
+                six = cur.list(lambda: cur.list(lambda: tup([q(cur.z(), cur.z()), q(cur.z(), cur.z())])))
+                g(f"sym_nodes {sn}", X.lst(lambda l: X.lst(str, l), six))
+            elif kind == "chq":
+                n, m = c.int(), c.z()
+                g(f"map (@length nat) (chunk_tasks (seq 0 {X.nat(n)}) {m}%positive)", nl(ints(o["sizes"])))
+            elif kind == "ch":
+                n, ceils = c.int(), c.list(c.z)
+                g(f"map (@length nat) (chunk_tasks_by (fun i => nth i {X.zlist(ceils)} 1%Z) (seq 0 {X.nat(n)}))", nl(ints(o["sizes"])))
+            elif kind == "pm":
+                n, predicted, ceils, sched = c.int(), c.int(), c.list(c.z), c.list(c.int)
+                CF, PO, XS = f"CFpm{k}", f"POpm{k}", f"(seq 0 {X.nat(n)})"
+                body.append(f"Definition {CF} : nat -> Z := fun i => nth i {X.zlist(ceils)} 1%Z.")
+                body.append(f"Definition {PO} : (list nat -> list nat) -> list (nat * list nat) -> list (nat * list nat) := fun g tasks => schedule_pool g {nl(sched)} tasks.")
+                g(f"map (@length nat) (chunk_tasks_by {CF} {XS})", nl(ints(o["sizes"])))
+                g(f"map fst ({PO} (computation {ident}) (tag (chunk_tasks_by {CF} {XS})))", nl(ints(o["delivered"])))
+                g(f"parmap_by {ident} {PO} {CF} {XS}", nl(ints(o["result"])))
+                g(f"serial {ident} {XS}", nl(ints(o["serial"])))
+                g(f"match parmap_checked {ident} {PO} {CF} {X.nat(predicted)} {XS} with None => true | Some _ => false end", X.boolean(o["raises"] == ["1"]))
+            elif kind == "kp":
+                n, jobs, sched = c.int(), c.z(), c.list(c.int)
+                PO, XS, J = f"POkp{k}", f"(seq 0 {X.nat(n)})", f"{jobs}%positive"
+                body.append(f"Definition {PO} : (list nat -> list nat) -> list (nat * list nat) -> list (nat * list nat) := fun g tasks => schedule_pool g {nl(sched)} tasks.")
+                g(f"koala_chunk_size {X.nat(n)} {J}", X.nat(o["chunk_size"][0]))
+                g(f"n_chunks_exact {X.nat(n)} (koala_chunk_size {X.nat(n)} {J})", X.nat(o["predicted"][0]))
+                g(f"map (@length nat) (koala_chunks {J} {XS})", nl(ints(o["sizes"])))
+                g(f"map fst ({PO} (computation {ident}) (tag (koala_chunks {J} {XS})))", nl(ints(o["delivered"])))
+                g(f"parmap {ident} {PO} {J} {XS}", "None" if o["raises"] == ["1"] else "Some " + nl(ints(o["result"])))
+            elif kind == "kv":
+                n, jobs, d, sched = c.int(), c.z(), c.int(), c.list(c.int)
+                PO = f"fun (g : list nat -> list (list nat)) tasks => schedule_pool g {nl(sched)} tasks"
+                f = f"(fun i : nat => map (fun j => i * {X.nat(d)} + j)%nat (seq 0 {X.nat(d)}))"
+                g(f"evaluated_points {jobs}%positive (seq 0 {X.nat(n)})", nl(ints(o["evaluated"])))
+                data = "None" if o["raises"] == ["1"] else "Some " + X.lst(nl, nested(Cursor(o["data"]), 2))
+                g(f"cpd_vector {f} ({PO}) {jobs}%positive (seq 0 {X.nat(n)})", data)
+            else:
+                n, jobs, a, b, sched = c.int(), c.z(), c.int(), c.int(), c.list(c.int)
+                PO = f"fun (g : list nat -> list (list (list nat))) tasks => schedule_pool g {nl(sched)} tasks"
+                f = f"(fun i : nat => map (fun j => map (fun k => (i * {X.nat(a)} + j) * {X.nat(b)} + k) (seq 0 {X.nat(b)})) (seq 0 {X.nat(a)}))%nat"
+                data = "None" if o["raises"] == ["1"] else "Some " + X.lst(lambda pl: X.lst(nl, pl), nested(Cursor(o["data"]), 3))
+                g(f"cpd_matrix {f} ({PO}) {jobs}%positive (seq 0 {X.nat(n)})", data)
+    goals = X.compile_goals("c20", "Model.Sampling Model.ParMap Model.PhaseDiagram", body, "c20", stdlib="List ZArith QArith Bool Arith")
+    ctx.res.extra["extraction_crosscheck"] = {"driver_answers_rederived_in_coq_by_vm_compute": goals, "cases_per_command": n_cases,
+                                              "coqc_seconds": X.LAST_WALL}
+    ctx.res.traces += goals
 
 
 # ------------------------------------------------------------------ generators
@@ -525,6 +724,7 @@ def run(ctx):
     evaluate_chunking(ctx, chunk_pairs(ctx.tier, ctx.seed))
     evaluate_compute(ctx, compute_cases(ctx.tier, ctx.seed))
     evaluate_chunk_count_scan(ctx, 3 if ctx.tier == "quick" else 40)
+    coq_crosscheck(ctx)
 
 
 def search(ctx):
